@@ -116,6 +116,44 @@ def run(ck, w):
     else:
         ck.ok(o, "%d Apath->str conversion(s) followed" % n_conv, instances=n_conv)
 
+    o = ck.ob("C11.1d", "<Apath as Ord>::cmp only ever byte-compares single path components (pieces produced by split('/')), never text that can contain '/'")
+    cb = lib.bodies.get("<apath::Apath as std::cmp::Ord>::cmp")
+    if cb is None:
+        ck.fail(o, "<apath::Apath as std::cmp::Ord>::cmp", "anchor-missing", "comparator not found")
+    else:
+        fam = [cb] + [b for b in lib.family(cb.name) if b is not cb]
+        n_cmp = 0
+        problems = []
+        comp_src = re.compile(r"<std::str::Split<'a, P> as std::iter::Iterator>::next$|<std::str::SplitN<.*> as std::iter::Iterator>::next$|std::path::Components.*Iterator>::next$")
+        for b in fam:
+            splits_ok = True
+            for e in b.events:
+                if e.bb in b.live and re.search(r"<impl str>::(split|splitn|rsplit|rsplitn|split_terminator)$", e.name):
+                    pat = e.args[1] if len(e.args) > 1 else {}
+                    if not (pat.get("k") == "const" and pat.get("int") == "47"):
+                        splits_ok = False
+            for e in b.events:
+                if e.bb not in b.live:
+                    continue
+                st = e.term.get("self_ty") or ""
+                if (e.callee or "") in ORDER_CALLS + ("std::cmp::PartialEq::eq", "std::cmp::PartialEq::ne") and re.search(r"^&?(str|std::string::String|\[u8\]|std::vec::Vec<u8>)$", re.sub(r"&'\w+ ", "&", st)):
+                    n_cmp += 1
+                    for a in e.args[:2]:
+                        orig = flow.origins_x(lib, b, a, through_calls=[r"<impl str>::as_bytes$", r"String::as_bytes$", r"String::as_str$"])
+                        calls = flow.origin_calls(orig)
+                        others = [x for x in orig if x[0] in ("param", "upvar", "const", "agg", "unknown")]
+                        if not calls or not all(comp_src.search(c) for c in calls) or others or not splits_ok:
+                            problems.append((e, flow.origin_summary(orig)))
+        if problems:
+            for e, why in problems[:4]:
+                ck.fail(o, cb.name, "comparator byte-compares text that is not a single component",
+                        "a string comparison inside Apath::cmp takes an operand derived from %s: '/' then takes part in the byte order, "
+                        "so '/a/b/f' and '/a-b/f' order differently from the documented component-wise rule" % why, e.site())
+        elif n_cmp == 0:
+            ck.fail(o, cb.name, "no component comparison", "Apath::cmp contains no string comparison")
+        else:
+            ck.ok(o, "%d string comparison(s), all on split('/') components" % n_cmp, instances=n_cmp)
+
     # ---- 2. sorted before emitted --------------------------------------------------------------------
     fh = w.body("index::write::IndexWriter::finish_hunk")
     o = ck.ob("C11.2a", "finish_hunk: self.entries is sorted by apath (Apath::cmp) before it is serialised, nothing pushed in between")
